@@ -133,8 +133,11 @@ def units(tier, seed):
     out.append(Unit('lemma/reader-loop', reader_loop_lemma(), level='property', clause='reader loop lemma'))
     UNCOVERED[:] = ['LDAP frames (asn1crypto "Insufficient data" translation): external, not interpreted'] + \
         [common.class_key(c) + ': see checks/classes.json' for c in e1.binary_classes() if e1.is_framing(c) and c not in classes]
-    from checks import foundation
-    return list(out) + foundation.units(tier, seed)
+    # "never accepts a proper prefix of a record as a complete record" also needs the accepted length to be the one the
+    # header declares (a parser that masks the length field accepts a prefix of a long record): K8 of each framing unit
+    from checks import foundation, c03_k8
+    k8 = [c03_k8.k8_unit(c) for c in common.select_classes(e1.binary_classes(), tier, 'K8') if e1.is_framing(c)]
+    return list(out) + k8 + foundation.units(tier, seed)
 
 
 from checks import regions as _regions
